@@ -395,6 +395,12 @@ class _StickySink:
         """Register a session via the callback; stash the minted token for the response."""
         token = self._open_callback(state, ttl)
         self.mint_token = token
+        # The last action of the request decides which header goes out. A
+        # close earlier in this request (close-then-open) is superseded: the
+        # client replaces its stored token with the new one, whereas
+        # ``VGI-Session-Close`` next to it would make the client drop the new
+        # token and orphan the session it names.
+        self.closed = False
         # _open_callback set _current_session_context — capture the new id
         # from there. We could equally have _open_callback return it, but
         # the contextvar is the single source of truth right after open.
@@ -407,6 +413,9 @@ class _StickySink:
         """Close the bound session via the callback; signal the response middleware."""
         self._close_callback()
         self.closed = True
+        # A token minted earlier in this request names the session that was
+        # just closed (open-then-close): don't hand out a dead token.
+        self.mint_token = None
 
 
 # ---------------------------------------------------------------------------
